@@ -178,10 +178,14 @@ pub(crate) fn days_to_wday(days: i32, monday_first: bool) -> u32 {
 }
 
 /// Get a list of specific weekdays in a month
-pub(crate) fn weekdays_in_month(year: i32, month: u32, weekday: u8) -> Vec<u32> {
-    let (_, days) = year_month_to_doy(year, month).unwrap();
+pub(crate) fn weekdays_in_month(
+    year: i32,
+    month: u32,
+    weekday: u8,
+) -> Result<Vec<u32>, AstrolabeError> {
+    let (_, days) = year_month_to_doy(year, month)?;
 
-    let start_days = date_to_days(year, month, 1).unwrap();
+    let start_days = date_to_days(year, month, 1)?;
 
     let mut weekday_index = 0;
     for index in 0..=6 {
@@ -201,7 +205,7 @@ pub(crate) fn weekdays_in_month(year: i32, month: u32, weekday: u8) -> Vec<u32> 
         }
     }
 
-    weekdays
+    Ok(weekdays)
 }
 
 /// Converts days to week of year
